@@ -1,6 +1,104 @@
-(* C16: theorem statements are added when the corresponding Proofs file is merged. *)
+(* C16 priority-pool keeps batch work and latency-sensitive work on separate pools.
+   Statements only; every proof is [exact <lemma of Proofs/PriorityPoolFacts.v>]. Per scheduling round of
+   the model of eudoxia/scheduler/priority_pool.py ([priority_pool_step]), from every scheduler state,
+   executor state, result list and arrival list; [pp_reach C s]: s is reachable from the initial
+   scheduler state by rounds. *)
 From Coq Require Import List ZArith QArith.
-From Eudoxia Require Import Model.Sched.
-Example C16_placeholder : ss_queue init_sstate = nil.
-Proof. reflexivity. Qed.
-Print Assumptions C16_placeholder.
+Import ListNotations.
+From Eudoxia Require Import Model.Types Model.Lifecycle Model.Container Model.Pool Model.Executor Model.Sched
+  Proofs.PriorityPoolFacts.
+Close Scope Q_scope.
+Close Scope Z_scope.
+
+(* the scheduler never suspends anything *)
+Theorem C16_never_suspends : forall C s e results newp s' w' susps asgs,
+  priority_pool_step C s e results newp = Ok (s', w', susps, asgs) -> susps = [].
+Proof. exact pp_never_suspends. Qed.
+Print Assumptions C16_never_suspends.
+
+(* every container of a query or interactive pipeline goes to pool 0, of a batch pipeline to pool 1 —
+   first attempts, retries and resumed work alike, in every round of every run *)
+Theorem C16_pool_by_class : forall C s e results newp s' w' susps asgs a,
+  pp_reach C s -> priority_pool_step C s e results newp = Ok (s', w', susps, asgs) -> In a asgs ->
+  (a_prio a = Query \/ a_prio a = Interactive -> a_pool a = 0%Z) /\ (a_prio a = Batch -> a_pool a = 1%Z).
+Proof. exact pp_pool_by_class_reach. Qed.
+Print Assumptions C16_pool_by_class.
+
+(* after an OOM failure exactly one job is queued per failed result: the unfinished operators of that
+   container, in order, under the container's priority, with its sizes; one assignment = one whole job *)
+Theorem C16_retry_unfinished_together : forall C s e results newp s' w' susps asgs,
+  priority_pool_step C s e results newp = Ok (s', w', susps, asgs) ->
+  (forall r, In r results -> r_err r = true -> not_completed_ops (e_world e) (r_ops r) <> []) /\
+  exists lq n,
+    (forall p, queue_of s' p =
+       skipn (n p) (queue_of s p ++ filter (is_class p) (map (new_job C) newp)
+                    ++ filter (is_class p) (map (fail_job C (e_world e)) (filter r_err results))
+                    ++ filter (is_class p) lq)) /\
+    (forall a, In a asgs ->
+       exists p j, In j (firstn (n p) (pp_pre C s e results newp lq p)) /\
+                   a_ops a = j_ops j /\ a_prio a = j_prio j).
+Proof. exact pp_retry_unfinished_together. Qed.
+Print Assumptions C16_retry_unfinished_together.
+
+Theorem C16_fail_job_fields : forall C w r,
+  j_ops (fail_job C w r) = not_completed_ops w (r_ops r) /\
+  j_prio (fail_job C w r) = r_prio r /\
+  j_retry (fail_job C w r) = Some (retry_of_result r).
+Proof. exact fail_job_fields. Qed.
+Print Assumptions C16_fail_job_fields.
+
+(* a retry whose doubled request reaches half of the pool is abandoned: scanned, removed, counted, not assigned *)
+Theorem C16_retry_cutoff : forall C w pid x j rest oom rs,
+  pp_dead x = false -> j_retry j = Some rs -> rt_err rs = true ->
+  over_half C x (2 * rt_cpu rs)%Z (2 * rt_ram rs)%Q = true ->
+  pp_scan C w pid x (j :: rest) oom = bump_n (pp_scan C w pid x rest (oom + 1)%Z) None.
+Proof. exact pp_retry_cutoff. Qed.
+Print Assumptions C16_retry_cutoff.
+
+(* "reaches half of the pool", in exact arithmetic *)
+Theorem C16_over_half_exact : forall C x cpu ram,
+  (forall q, cf_rnd C q == q)%Q -> (0 < ps_tcpu x)%Z -> (0 < ps_tram x)%Q ->
+  over_half C x cpu ram = true <-> (ps_tcpu x <= 2 * cpu)%Z \/ (ps_tram x <= 2 * ram)%Q.
+Proof. exact over_half_exact_pos. Qed.
+Print Assumptions C16_over_half_exact.
+
+(* otherwise it is assigned the doubled request, or everything that is free *)
+Theorem C16_retry_assigned : forall C w pid x j rest oom rs,
+  pp_dead x = false -> j_retry j = Some rs -> rt_err rs = true ->
+  over_half C x (2 * rt_cpu rs)%Z (2 * rt_ram rs)%Q = false ->
+  let req := if (ps_acpu x <=? 2 * rt_cpu rs)%Z || Qleb (ps_aram x) (2 * rt_ram rs)%Q
+             then (ps_acpu x, ps_aram x) else ((2 * rt_cpu rs)%Z, (2 * rt_ram rs)%Q) in
+  let a := mk_asg j pid (fst req) (snd req) in
+  pp_scan C w pid x (j :: rest) oom =
+  (do w' <- mk_assignment C w a;
+   bump_n (pp_scan C w' pid (ps_take x (fst req) (snd req)) rest oom) (Some a)).
+Proof. exact pp_retry_assigned. Qed.
+Print Assumptions C16_retry_assigned.
+
+(* the scheduler's internal assertion (free RAM and free CPU reach zero together) cannot fire *)
+Theorem C16_no_internal_assertion : forall C s e results newp,
+  (forall r, In r results -> r_err r = true -> not_completed_ops (e_world e) (r_ops r) <> []) ->
+  (forall p c, In p (e_pools e) -> In c (p_suspending p) ->
+               not_completed_ops (e_world e) (c_ops c) <> []) ->
+  both_or_none (nth 0 (snapshot e) dummy_stat) -> both_or_none (nth 1 (snapshot e) dummy_stat) ->
+  priority_pool_step C s e results newp <> Err ESchedAssert.
+Proof. exact pp_step_no_assert. Qed.
+Print Assumptions C16_no_internal_assertion.
+
+(* the shared pool (C12): interactive work only if no query job waits; a job waits only if its pool is used up *)
+Theorem C16_shared_pool_order : forall C s e results newp s' w' susps asgs,
+  priority_pool_step C s e results newp = Ok (s', w', susps, asgs) ->
+  let x0 := nth 0 (snapshot e) dummy_stat in
+  let x1 := nth 1 (snapshot e) dummy_stat in
+  let on k := filter (fun a => (a_pool a =? k)%Z) asgs in
+  (class_ok s -> ss_q s' <> [] -> forall a, In a asgs -> a_prio a <> Interactive) /\
+  (ss_q s' <> [] \/ ss_i s' <> [] ->
+     (ps_acpu x0 - sumZ (map a_cpu (on 0%Z)) = 0)%Z /\ (ps_aram x0 - sumQ (map a_ram (on 0%Z)) == 0)%Q) /\
+  (ss_b s' <> [] ->
+     (ps_acpu x1 - sumZ (map a_cpu (on 1%Z)) = 0)%Z /\ (ps_aram x1 - sumQ (map a_ram (on 1%Z)) == 0)%Q).
+Proof. exact pp_shared_pool_order. Qed.
+Print Assumptions C16_shared_pool_order.
+
+(* non-vacuity *)
+Example C16_witness : forall C, pp_reach C init_sstate.
+Proof. intros. constructor. Qed.
